@@ -6,9 +6,8 @@ set_option linter.unusedVariables false
 `RawLessThanSign`, `RawEndTagOpen`, `RawEndTagName`, the script data escape start / dash / dash dash
 states and the double escape end state; dispatcher `tab_raw`.
 
-`RawEndTagName` needs the extra hypothesis `t.attrs = []`: the fall-through leaf returns to a text
-state, where `RegRel` demands empty attribute registers, while `RegRel` in `RawEndTagName` only gives
-`AttrR … t.attrs`.
+In `RawEndTagName` the clause `t.attrs = []` of `RegRel` is needed: the fall-through leaf returns to a
+text state, where `RegRel` demands empty attribute registers.
 -/
 namespace H5V.Lemmas.HtmlTokSpec
 open H5V.Model.HtmlTok
@@ -102,74 +101,74 @@ theorem tab_rawEndTagOpen (k : RawKind) (o : Opts) (ho : o.exactErrors = false) 
 /-- an end tag name state (`fn` = the state's function in the specification): the register part of
 the relation is destructured, "appropriate end tag token" is decided first, the `>` leaf of the
 appropriate case goes through `tabOk_gt`, the other leaves through `tab_cases` -/
-macro "tab_rawEndTagName_tac" h:ident hs:ident hat:ident hpt:ident hr:ident m:ident t:ident c:ident fn:ident : tactic =>
+macro "tab_rawEndTagName_tac" h:ident hs:ident o:ident pol:ident hpt:ident hr:ident m:ident t:ident c:ident fn:ident : tactic =>
   `(tactic| (
   obtain ⟨hstd, hst, hcr, hreg, hout⟩ := $h
   simp [$hs:ident, stOf, altSt, isRet] at hst
   simp [RegRel, AttrRel, $hs:ident, isTagSt, needsCur, usesTemp, usesComment, usesDoctype] at hreg
   simp [OutRel, cdataBuf, isCdata, $hs:ident] at hout
-  obtain ⟨r1, ⟨r2, r3, r4, r5⟩, r6⟩ := hreg
+  obtain ⟨r1, ⟨r2, r3, r4, r5⟩, r6, hat, r7⟩ := hreg
   have happ := appropriate_eq $m $t r2 r3 r1
   by_cases ha : Tok.isAppropriateEndTag $t = true
   · by_cases hgt : $c = '>'
     · subst hgt
-      have hm : transChar _ _ $m '>' = emitTag _ .data (clearTemp $m) := by
+      have hm : transChar $o $pol $m '>' = emitTag $pol .data (clearTemp $m) := by
         unfold transChar; simp (config := {decide := true}) [$hs:ident, happ, ha, isWs]
       rw [hm]
-      refine tabOk_gt _ _ $hpt (clearTemp $m) $t $t $t _ (Or.inl rfl) ?_ hcr $hr r1 r2 r3 r4 r5 hout
+      refine tabOk_gt $pol _ $hpt (clearTemp $m) $t $t $t _ (Or.inl rfl) ?_ hcr $hr r1 r2 r3 r4 r5 hout r7
       simp [sstep, H5V.Spec.HtmlTokenizer.step, hst, $fn:ident,
         H5V.Spec.HtmlTokenizer.genericEndTagNameState, ha, Tok.done]
     · unfold transChar
       simp only [$hs:ident, happ]
-      rw [$hat:ident, attrR_nil_iff] at r5
+      rw [hat, attrR_nil_iff] at r5
       obtain ⟨r5a, r5b, r5c, r5d⟩ := r5
       tab_cases $c ['\t', '\n', '\x0c', ' ', '/', '>']
   · unfold transChar
     simp only [$hs:ident, happ]
-    rw [$hat:ident, attrR_nil_iff] at r5
+    rw [hat, attrR_nil_iff] at r5
     obtain ⟨r5a, r5b, r5c, r5d⟩ := r5
     tab_cases $c ['\t', '\n', '\x0c', ' ', '/', '>']))
 
 set_option maxHeartbeats 1600000 in
 theorem tab_rawEndTagName_rcdata (o : Opts) (ho : o.exactErrors = false) (pol : Pol) (tree : Tree) (hpt : PolTree pol tree)
     (m : Mach) (t : Tok) (c : Char) (rest : Str) (h : RegCore m t) (hr : m.reconsume = false)
-    (hs : m.state = .rawEndTagName .rcdata) (hat : t.attrs = []) : TabOk tree t c rest (transChar o pol m c) := by
-  tab_rawEndTagName_tac h hs hat hpt hr m t c H5V.Spec.HtmlTokenizer.rcdataEndTagNameState
+    (hs : m.state = .rawEndTagName .rcdata) : TabOk tree t c rest (transChar o pol m c) := by
+  tab_rawEndTagName_tac h hs o pol hpt hr m t c H5V.Spec.HtmlTokenizer.rcdataEndTagNameState
 
 set_option maxHeartbeats 1600000 in
 theorem tab_rawEndTagName_rawtext (o : Opts) (ho : o.exactErrors = false) (pol : Pol) (tree : Tree) (hpt : PolTree pol tree)
     (m : Mach) (t : Tok) (c : Char) (rest : Str) (h : RegCore m t) (hr : m.reconsume = false)
-    (hs : m.state = .rawEndTagName .rawtext) (hat : t.attrs = []) : TabOk tree t c rest (transChar o pol m c) := by
-  tab_rawEndTagName_tac h hs hat hpt hr m t c H5V.Spec.HtmlTokenizer.rawtextEndTagNameState
+    (hs : m.state = .rawEndTagName .rawtext) : TabOk tree t c rest (transChar o pol m c) := by
+  tab_rawEndTagName_tac h hs o pol hpt hr m t c H5V.Spec.HtmlTokenizer.rawtextEndTagNameState
 
 set_option maxHeartbeats 1600000 in
 theorem tab_rawEndTagName_scriptData (o : Opts) (ho : o.exactErrors = false) (pol : Pol) (tree : Tree) (hpt : PolTree pol tree)
     (m : Mach) (t : Tok) (c : Char) (rest : Str) (h : RegCore m t) (hr : m.reconsume = false)
-    (hs : m.state = .rawEndTagName .scriptData) (hat : t.attrs = []) : TabOk tree t c rest (transChar o pol m c) := by
-  tab_rawEndTagName_tac h hs hat hpt hr m t c H5V.Spec.HtmlTokenizer.scriptDataEndTagNameState
+    (hs : m.state = .rawEndTagName .scriptData) : TabOk tree t c rest (transChar o pol m c) := by
+  tab_rawEndTagName_tac h hs o pol hpt hr m t c H5V.Spec.HtmlTokenizer.scriptDataEndTagNameState
 
 set_option maxHeartbeats 1600000 in
 theorem tab_rawEndTagName_escaped (o : Opts) (ho : o.exactErrors = false) (pol : Pol) (tree : Tree) (hpt : PolTree pol tree)
     (m : Mach) (t : Tok) (c : Char) (rest : Str) (h : RegCore m t) (hr : m.reconsume = false)
-    (hs : m.state = .rawEndTagName (.scriptDataEscaped .escaped)) (hat : t.attrs = []) : TabOk tree t c rest (transChar o pol m c) := by
-  tab_rawEndTagName_tac h hs hat hpt hr m t c H5V.Spec.HtmlTokenizer.scriptDataEscapedEndTagNameState
+    (hs : m.state = .rawEndTagName (.scriptDataEscaped .escaped)) : TabOk tree t c rest (transChar o pol m c) := by
+  tab_rawEndTagName_tac h hs o pol hpt hr m t c H5V.Spec.HtmlTokenizer.scriptDataEscapedEndTagNameState
 
 theorem tab_rawEndTagName (k : RawKind) (o : Opts) (ho : o.exactErrors = false) (pol : Pol) (tree : Tree)
     (hpt : PolTree pol tree) (m : Mach) (t : Tok) (c : Char) (rest : Str) (h : RegCore m t) (hr : m.reconsume = false)
-    (hs : m.state = .rawEndTagName k) (hk : k ≠ .scriptDataEscaped .doubleEscaped) (hat : t.attrs = []) :
+    (hs : m.state = .rawEndTagName k) (hk : k ≠ .scriptDataEscaped .doubleEscaped) :
     TabOk tree t c rest (transChar o pol m c) := by
   cases k with
-  | rcdata => exact tab_rawEndTagName_rcdata o ho pol tree hpt m t c rest h hr hs hat
-  | rawtext => exact tab_rawEndTagName_rawtext o ho pol tree hpt m t c rest h hr hs hat
-  | scriptData => exact tab_rawEndTagName_scriptData o ho pol tree hpt m t c rest h hr hs hat
+  | rcdata => exact tab_rawEndTagName_rcdata o ho pol tree hpt m t c rest h hr hs
+  | rawtext => exact tab_rawEndTagName_rawtext o ho pol tree hpt m t c rest h hr hs
+  | scriptData => exact tab_rawEndTagName_scriptData o ho pol tree hpt m t c rest h hr hs
   | scriptDataEscaped e =>
     cases e with
-    | escaped => exact tab_rawEndTagName_escaped o ho pol tree hpt m t c rest h hr hs hat
+    | escaped => exact tab_rawEndTagName_escaped o ho pol tree hpt m t c rest h hr hs
     | doubleEscaped => exact absurd rfl hk
 
 /-! ## script data escape states -/
 
-theorem script_eq : "script".toList = ['s', 'c', 'r', 'i', 'p', 't'] := by rfl
+theorem tabRaw_script_eq : "script".toList = ['s', 'c', 'r', 'i', 'p', 't'] := by rfl
 
 /-- a state that compares the temporary buffer with "script": like `tab_state`, but the buffer of the
 model is replaced by that of the specification, "script" by the list of its characters, and the
@@ -179,8 +178,8 @@ macro "tab_state_script" h:ident hs:ident t:ident c:ident "[" ls:term,* "]" : ta
   simp [$hs:ident, stOf, altSt, isRet] at hst
   simp [RegRel, AttrRel, $hs:ident, isTagSt, needsCur, usesTemp, usesComment, usesDoctype] at hreg
   simp [OutRel, cdataBuf, isCdata, $hs:ident] at hout
-  obtain ⟨r1, r2, r3⟩ := hreg
-  have hsc := script_eq
+  obtain ⟨r1, r2, r3, r7⟩ := hreg
+  have hsc := tabRaw_script_eq
   unfold transChar
   simp only [$hs:ident, r3, hsc]
   by_cases hb : Tok.temporaryBuffer $t = ['s', 'c', 'r', 'i', 'p', 't']
@@ -257,10 +256,9 @@ theorem tab_scriptDataDoubleEscapeEnd (o : Opts) (ho : o.exactErrors = false) (p
 
 /-! ## dispatcher -/
 
-/-- all states of this file; `hat`: no attributes in the end tag name states (see the header) -/
+/-- all states of this file -/
 theorem tab_raw (o : Opts) (ho : o.exactErrors = false) (pol : Pol) (tree : Tree) (hpt : PolTree pol tree)
     (m : Mach) (t : Tok) (c : Char) (rest : Str) (h : RegCore m t) (hr : m.reconsume = false)
-    (hat : ∀ k, m.state = .rawEndTagName k → t.attrs = [])
     (hs : (∃ k, m.state = .rawLessThanSign k) ∨ (∃ k, m.state = .rawEndTagOpen k) ∨ (∃ k, m.state = .rawEndTagName k) ∨
           (∃ k, m.state = .scriptDataEscapeStart k) ∨ m.state = .scriptDataEscapeStartDash ∨
           (∃ k, m.state = .scriptDataEscapedDash k) ∨ (∃ k, m.state = .scriptDataEscapedDashDash k) ∨
@@ -272,7 +270,7 @@ theorem tab_raw (o : Opts) (ho : o.exactErrors = false) (pol : Pol) (tree : Tree
   · refine tab_rawEndTagOpen k o ho pol tree m t c rest h hr hs ?_
     rintro rfl
     exact hstd.1 hs
-  · refine tab_rawEndTagName k o ho pol tree hpt m t c rest h hr hs ?_ (hat k hs)
+  · refine tab_rawEndTagName k o ho pol tree hpt m t c rest h hr hs ?_
     rintro rfl
     exact hstd.2 hs
   · exact tab_scriptDataEscapeStart k o ho pol tree m t c rest h hr hs
